@@ -53,4 +53,12 @@ PROPS = {
                     "declared float with a float dynamic value is formatted with %f by the code (lossy beyond 6 decimals); the model and the generator cover only floats that survive it (recorded in DESIGN.md, not claimed)"],
         "assumes": ["unsigned values are within the signed 64-bit range (the property's own range)"],
     },
+    "C20": {
+        "cmd": "c20",
+        "corr": ["Corr.C20corr"],
+        "trusted": ["muyo/sno is modelled by the state machine of its New (equal / forward / regression / blocked branches) as serialised by the wrapper's mutex; its partition allocator (process-global counter) is assumed to hand out distinct partitions",
+                    "the 39-bit timestamp does not wrap (year 2079) and time.Now drives it; fallback prefixes are time derived: distinctness across generators is an assumption checked only by observation",
+                    "real clock readings are not controlled: single-goroutine id sequences are validated by the model acceptor, concurrent draws by duplicate search"],
+        "assumes": ["a restored generator replaces the original (both are not drawn from concurrently)"],
+    },
 }
